@@ -157,6 +157,17 @@ class CCodeMapper(SimplifyingSortingStringifyMapper):
                     self.rec(expr.numerator, PREC_PRODUCT),
                     self.rec(expr.denominator, PREC_POWER))  # analogous to ^{-1}
 
+    def map_comparison(self, expr, enclosing_prec):
+        # In C, comparisons bind tighter than & ^ |: (a & b) == c is not
+        # a & b == c.
+        from pymbolic.mapper.stringifier import PREC_COMPARISON, PREC_SHIFT
+        return self.parenthesize_if_needed(
+                self.format("%s %s %s",
+                    self.rec(expr.left, PREC_SHIFT),
+                    expr.operator,
+                    self.rec(expr.right, PREC_SHIFT)),
+                enclosing_prec, PREC_COMPARISON)
+
     def map_logical_not(self, expr, enclosing_prec):
         return self.parenthesize_if_needed(
                 "!" + self.rec(expr.child, PREC_UNARY),
